@@ -42,6 +42,9 @@ pub fn parse_ignore(source: &Path, config: &Config) -> Result<Option<Gitignore>>
 pub fn ignore_filter(entry: &DirEntry, ignore: &Option<Gitignore>) -> bool {
     match ignore {
         None => true,
+        // The root of the walk is what was asked for; only its
+        // contents are subject to the ignore rules.
+        Some(_) if entry.depth() == 0 => true,
         Some(gi) => {
             let path = entry.path();
             let m = gi.matched(path, path.is_dir());
